@@ -586,7 +586,7 @@ func ruleTBPenalty(r *core.Reporter) {
 		}
 		okPen, okZero, okIncr := true, true, true
 		for _, e := range armEdges {
-			start := []ir.Pt{{B: e.b.Succs[e.s], I: 0}}
+			start := []ir.Pt{ir.EdgePt(e.b, e.s)}
 			if _, bad := ir.PathExists(start, ir.Opts{Stop: isPen}, ir.IsExit); bad {
 				okPen = false
 			}
@@ -628,7 +628,7 @@ func ruleTBPenalty(r *core.Reporter) {
 		// status >= 500 ≡ 500 <= status
 		if a.V == nil && a.Op == token.LEQ {
 			if c, ok := ir.ConstInt(a.X); ok && c == 500 && resolveParam(a.Y, 0) != nil {
-				start := ir.Pt{B: ii.If.Block().Succs[ii.EdgeWhen(true)], I: 0}
+				start := ir.EdgePt(ii.If.Block(), ii.EdgeWhen(true))
 				bad := false
 				for in := range ir.Reach([]ir.Pt{start}, ir.Opts{}).Reached {
 					if st, ok := in.(*ssa.Store); ok {
@@ -937,7 +937,7 @@ func ruleTBUse(r *core.Reporter) {
 		for _, ii := range ir.Ifs(fn) {
 			a := ii.Atom
 			if a.V == nil && a.Op == token.EQL && ((a.X == errv && ir.IsNilConst(a.Y)) || (a.Y == errv && ir.IsNilConst(a.X))) {
-				s := ir.Pt{B: ii.If.Block().Succs[ii.EdgeWhen(true)], I: 0}
+				s := ir.EdgePt(ii.If.Block(), ii.EdgeWhen(true))
 				start = &s
 			}
 		}
